@@ -137,6 +137,9 @@ type Group struct {
 	// unset-both (ENV_DAEMON_*), clearenv, overwrite (other values), chdir("/"), closefds (0,1,2),
 	// setsid, umask.
 	Pre []string `json:"pre_done_actions,omitempty"`
+	// SigIgn: the caller runs with SIGINT ignored (what nohup, a background job of a non-interactive
+	// shell or signal.Ignore give a program); launcher and daemon inherit that disposition.
+	SigIgn bool `json:"caller_ignores_sigint,omitempty"`
 }
 
 func (g Group) name(i int) string { return nameOf(g.Names, i) }
@@ -174,6 +177,9 @@ func (cs Case) shape() string {
 			sb.WriteString(":stdio")
 		}
 		fmt.Fprintf(&sb, ":%s:n%d:%s:%s:sig%s:pre%v", g.Names, g.Nest, g.StaleFlag, g.Start, g.GateSignal, g.Pre)
+		if g.SigIgn {
+			sb.WriteString(":sigign")
+		}
 	}
 	return sb.String()
 }
@@ -298,6 +304,9 @@ func runCase(cs Case, c *drv.Ctx, root string) (vd verdict) {
 		}
 		if gr.g.LingerMs > 0 {
 			cmd.Env = append(cmd.Env, envLinger+"="+strconv.Itoa(gr.g.LingerMs))
+		}
+		if gr.g.SigIgn {
+			cmd.Env = append(cmd.Env, envSigIgn+"=1")
 		}
 		if gr.g.Forced {
 			cmd.Env = append(cmd.Env, envForced+"=1", "GLB_VERIF_PAUSE=launch.afterStart:"+filepath.Join(gr.dir, flagName))
@@ -888,7 +897,9 @@ func judgeExited(cs Case, gr *groupRun, c *drv.Ctx) verdict {
 	if rep.SigintWasIgnored {
 		c.Add("callers_that_inherited_sigint_ignored_and_reset_it", 1)
 	}
-	if !rep.SigintDefault {
+	if gr.g.SigIgn {
+		c.Add("callers_running_with_sigint_ignored_on_purpose", 1)
+	} else if !rep.SigintDefault {
 		return verdict{inconclusive: "the caller could not establish the default SIGINT environment for its launchers: " + rep.SigintNote}
 	}
 	// nested calls: their reports are written by the daemons that made them (possibly after the
@@ -1318,6 +1329,8 @@ var classes = []string{
 	"t-nest2-natural", "t-nest2-forced", "t-nest3-natural", "t-nest3-forced",
 	// the caller has a stale ENV_DAEMON_FLAG (isDaemon / isLauncher / junk) in its environment
 	"u-staleflag",
+	// the caller runs with SIGINT ignored
+	"v-sigign-natural", "v-sigign-forced",
 	// how the caller is started: ./prog in its directory, sub/prog from the parent directory, bare
 	// name through PATH, through a symlink, absolute path with another cwd
 	"p-start-natural", "p-start-forced",
@@ -1450,6 +1463,12 @@ func genCase(class, tier string, seed int64, part, run int) Case {
 		g := Group{Nest: depth, Delays: make([]int, depth), Forced: f[2] == "forced"}
 		for i := range g.Delays {
 			g.Delays[i] = delayChoices[r.Intn(len(delayChoices))]
+		}
+		cs.Groups = []Group{g}
+	case "v":
+		g := Group{SigIgn: true, Forced: f[2] == "forced", Delays: []int{delayChoices[r.Intn(len(delayChoices))]}}
+		if r.Intn(2) == 0 {
+			g.Delays = append(g.Delays, delayChoices[r.Intn(len(delayChoices))])
 		}
 		cs.Groups = []Group{g}
 	case "u":
